@@ -28,6 +28,8 @@ const (
 
 type propCfg struct {
 	harness                     string // "ha" (instrumented, controlled scheduler) | "hb" (plain build + static overlay)
+	also                        string // a second harness whose shards run the property's real-transport / real-process stage
+	alsoShards                  int
 	shards                      int
 	technique                   string
 	quickBudget, thoroughBudget time.Duration
@@ -41,6 +43,11 @@ func init() {
 	}
 	for _, id := range []string{"C02", "C03", "C04", "C11", "C12", "C18"} {
 		propsCfg[id] = propCfg{harness: "ha", shards: 16, quickBudget: 150 * time.Second, thoroughBudget: 40 * time.Minute}
+	}
+	for _, id := range []string{"C03"} {
+		c := propsCfg[id]
+		c.also, c.alsoShards = "hb", 4
+		propsCfg[id] = c
 	}
 	for _, id := range []string{"C05", "C06", "C07", "C08", "C09", "C19", "C20"} {
 		propsCfg[id] = propCfg{harness: "hb", shards: 16, quickBudget: 150 * time.Second, thoroughBudget: 40 * time.Minute}
@@ -257,16 +264,31 @@ func check(id, tier string) int {
 			budget = d
 		}
 	}
-	results := make([]*shardResult, shards)
-	errs := make([]string, shards)
-	var wg sync.WaitGroup
+	type job struct {
+		bin      string
+		idx, cnt int
+	}
+	var jobs []job
 	for i := 0; i < shards; i++ {
+		jobs = append(jobs, job{bin, i, shards})
+	}
+	if cfg.also != "" {
+		bin2 := build(work, cfg.also)
+		for i := 0; i < cfg.alsoShards; i++ {
+			jobs = append(jobs, job{bin2, i, cfg.alsoShards})
+		}
+	}
+	results := make([]*shardResult, len(jobs))
+	errs := make([]string, len(jobs))
+	var wg sync.WaitGroup
+	for i := range jobs {
 		wg.Add(1)
 		go func(i int) {
 			defer wg.Done()
+			bin, shards := jobs[i].bin, jobs[i].cnt
 			outf := filepath.Join(work, fmt.Sprintf("out-%d.json", i))
 			// the order in which shards take scenarios is permuted by the seed; the set explored is not
-			cmd := exec.Command(bin, "-tier", tier, "-shard", strconv.Itoa((i+seed)%shards), "-shards", strconv.Itoa(shards),
+			cmd := exec.Command(bin, "-tier", tier, "-shard", strconv.Itoa((jobs[i].idx+seed)%shards), "-shards", strconv.Itoa(shards),
 				"-out", outf, "-queue", filepath.Join(work, "queue"), "-budget", budget.String(), "-replaydir", filepath.Join(verif, "replays"), id)
 			cmd.Env = append(append(goEnv(), "GOMAXPROCS=2"), extraEnv...)
 			cmd.Dir = work
